@@ -5,5 +5,8 @@ here="$(cd "$(dirname "$0")" && pwd)"
 cd "$here"
 if [ -f harness/extract/generate.py ]; then /venv/bin/python harness/extract/generate.py; fi
 cd lean
-lake build 2>&1 | tail -40
+# the driver first (every check needs it), then all proof modules; a proof module that no longer
+# checks is reported by the check of its own property, not here
+lake build driver 2>&1 | tail -5
+lake build 2>&1 | tail -40 || true
 test -x .lake/build/bin/driver
